@@ -148,6 +148,34 @@ func (w *World) Quiesce(maxRounds int) bool {
 	return false
 }
 
+// QuiesceCommits advances virtual time until two consecutive 10-minute windows pass without any commit
+// (store reads and failing reconciles may continue: a controller that keeps retrying against a resource held
+// by a foreign finalizer never goes silent, yet the state has converged).
+func (w *World) QuiesceCommits(maxRounds int) bool {
+	still := 0
+
+	for i := 0; i < maxRounds; i++ {
+		synctest.Wait()
+
+		before := w.NCommits()
+
+		time.Sleep(10 * time.Minute)
+		synctest.Wait()
+
+		if w.NCommits() == before {
+			still++
+
+			if still >= 2 {
+				return true
+			}
+		} else {
+			still = 0
+		}
+	}
+
+	return false
+}
+
 // Snapshot returns copies of the log and current contents.
 func (w *World) Snapshot() ([]LogEntry, map[model.Key]*model.Res) {
 	w.mu.Lock()
